@@ -103,6 +103,7 @@ class HookSystem:
             st.h = Clamping(st.m, "w", min=-1.0, max=1.0, as_prehook=self.pre, **kw)
         # model
         st.reg, st.tr, st.ev, st.training, st.alive = False, self.tr0, self.ev0, True, True
+        st.regs = 0  # completed registrations (capped in the key): re-registration is a distinct hidden state
         return st
 
     def build(self, history):
@@ -183,6 +184,8 @@ class HookSystem:
                 except RuntimeError:
                     if not st.reg:
                         raise
+                if not st.reg:
+                    st.regs += 1
                 st.reg = True
                 exp_log = []
             elif name == "deregister":
@@ -238,7 +241,9 @@ class HookSystem:
         return bad
 
     def canon(self, st):
-        return (st.reg, st.tr, st.ev, st.training, st.alive)
+        # the number of completed register/deregister cycles is kept (capped at 3): the implementation carries
+        # per-registration hidden state (handles, finalizer) that the five model bits do not determine
+        return (st.reg, st.tr, st.ev, st.training, st.alive, min(st.regs, 3))
 
 
 def fsm_shard(kind, tr0, ev0):
